@@ -475,6 +475,17 @@ func RunLogisticRegression(c *core.Ctx) {
 	l1 := []float64{0, 0.5, 2}[t.Choose(3)]
 	iters := t.Range(1, 6)
 	seed := int64(t.Range(1, 1000))
+	// options
+	balance := t.Bool(1, 4)
+	cw0, cw1 := []float64{1, 1, 2}[t.Choose(3)], []float64{1, 1, 0.5}[t.Choose(3)]
+	ssf := []float64{1, 1, 0.5}[t.Choose(3)]
+	l2, ti := 0.0, 0.0
+	switch t.Choose(4) {
+	case 1:
+		l2 = 0.5
+	case 2:
+		ti = 0.5
+	}
 	recs := make([]ad.ConstVector, n)
 	for i := range recs {
 		// x_i = (1, features..., label)
@@ -501,7 +512,7 @@ func RunLogisticRegression(c *core.Ctx) {
 		}
 	}
 	what := fmt.Sprintf("vector:logistic-regression(sparse=%v,l1=%v)", sparse, l1)
-	c.Logf("%s dim=%d, %d records, %d epochs, seed %d, pool %s / second schedule %s", what, dim, n, iters, seed, cfg, cfg2)
+	c.Logf("%s dim=%d, %d records, %d epochs, seed %d, balance=%v class weights [%g %g] step factor %g l2=%g ti=%g, pool %s / second schedule %s", what, dim, n, iters, seed, balance, cw0, cw1, ssf, l2, ti, cfg, cfg2)
 	for i, r := range recs {
 		c.Logf("  record %d: %v", i, vecOf(r))
 	}
@@ -517,6 +528,12 @@ func RunLogisticRegression(c *core.Ctx) {
 		est.MaxIterations = iters
 		est.Epsilon = 0
 		est.Seed = seed
+		est.Balance = balance
+		est.ClassWeights = [2]float64{cw0, cw1}
+		est.StepSizeFactor = ssf
+		if l1 == 0 {
+			est.L2Reg, est.TiReg = l2, ti
+		}
 		if pv, site := core.Try(func() { err = est.EstimateOnData(recs, nil, p) }); pv != nil {
 			if _, ok := pv.(tp.Abort); ok {
 				panic(pv)
